@@ -227,6 +227,37 @@ pub fn run(ctx: &mut Ctx) {
             Err(e) => ctx.violation("perturbed-voice-does-not-load", J::from(format!("{}", e))),
         }
     });
+    // copies of the bundled voice whose header lists other GV-off contexts: a voiced phoneme
+    // among them, fewer of them, or none at all (then every frame takes part)
+    let n = ctx.n(24, 600);
+    ctx.run_cases("gv-off-context", n, false, |ctx, rng, idx| {
+        let lists = ["\"*-sil+*\",\"*-pau+*\",\"*-a+*\"", "\"*-a+*\",\"*-o+*\"", "", "\"*-sil+*\"", "\"*-i+*\",\"*-pau+*\",\"*-sil+*\",\"*-N+*\""];
+        let list = lists[idx % lists.len()];
+        let old = b"GV_OFF_CONTEXT:\"*-sil+*\",\"*-pau+*\"\n";
+        let Some(at) = env.bundled_bytes.windows(old.len()).position(|w| w == old) else {
+            ctx.inconclusive("bundled voice header has no GV_OFF_CONTEXT line of the expected form");
+            return;
+        };
+        let mut bytes = env.bundled_bytes[..at].to_vec();
+        bytes.extend_from_slice(format!("GV_OFF_CONTEXT:{}\n", list).as_bytes());
+        bytes.extend_from_slice(&env.bundled_bytes[at + old.len()..]);
+        let Ok(rv) = read_voice(&bytes) else {
+            ctx.inconclusive("reader on a voice with another GV_OFF_CONTEXT list");
+            return;
+        };
+        let p = env.voice_file(&bytes);
+        let e = Engine::load(&[&p]);
+        env.remove(&p);
+        match e {
+            Ok(e) => {
+                for k in 0..2 {
+                    one(ctx, &env, rng, &e, &rv, &format!("bundled with GV_OFF_CONTEXT:{}", list), idx + k);
+                }
+                ctx.count("voices_with_another_gv_off_context", 1.0);
+            }
+            Err(e) => ctx.violation("voice-with-another-gv-off-context-does-not-load", J::obj().set("list", list).set("err", format!("{}", e))),
+        }
+    });
     // a voice whose header switches GV off for a stream while the GV data is still in the file:
     // that stream must ignore its GV weight and equal the plain ML solution
     ctx.run_cases("gv-flag-off", 8, true, |ctx, rng, idx| {
